@@ -73,7 +73,7 @@ Proof.
   intros freq ampl off phase SR n k HSR Hn.
   unfold PA_sine_gen. cbv zeta.
   rewrite time_axis by assumption. rewrite INR2.
-  f_equal. f_equal. f_equal. ring.
+  match goal with |- ?a * sin ?x + ?o = ?a * sin ?y + ?o => replace x with y by ring end. reflexivity.
 Qed.
 
 Lemma ramp_closed : forall start stop SR n k,
